@@ -349,6 +349,112 @@ def pstep (order : List Phase) (s : PSt) : PEv → PSt
 def prun (order : List Phase) (workers : List Nat) (evs : List PEv) : PSt :=
   evs.foldl (pstep order) { live := workers }
 
+/-! ## Retry-After and the shutdown flush (`DirectTransmission.sendBatch`)
+
+```go
+for try := 0; try < 2; try++ {
+    resp, err = d.httpClient.Do(req)
+    if 429 or 503 { sleepDur := Retry-After; if 0 < sleepDur < 60s { d.Clock.Sleep(sleepDur); continue } }
+    break }
+```
+Times are whole seconds on the transmission's clock.  The upstream is a parameter of a simple
+kind: a destination in `lim` is rate limited from the first attempt it sees (at `t`) until
+`t + r`; before that instant it answers 429/503 with `Retry-After` = the time left, from then on it
+accepts.  A batch whose first attempt is refused sleeps until the announced instant and is tried
+once more; a second refusal drops the whole batch.  `stopWakes = false` is the code as it is
+(`Clock.Sleep`: `Stop` has no influence on the wait — it closes `d.stop`, dispatches what is
+pending and waits in `dispatchPool.Wait()` while the clock runs); `true` is a wait that `Stop`
+cuts short.
+-/
+structure RCfg where
+  mb : Nat := 1
+  r : Int := 1
+  lim : List Nat := []
+  stopWakes : Bool := false
+  deriving Repr
+
+structure RSleep where
+  dest : Nat
+  evs : List Nat
+  wake : Int
+  deriving DecidableEq, Repr
+
+structure RSt where
+  now : Int := 0
+  stopped : Bool := false
+  locked : Bool := false
+  pending : AList Nat (List Nat) := []
+  sleeping : List RSleep := []               -- batches in their Retry-After sleep
+  acceptAt : AList Nat Int := []             -- upstream: limited destination ↦ instant from which it accepts
+  delivered : List (Nat × List Nat) := []
+  dropped : List (Nat × List Nat) := []      -- batches given up after the second refusal
+  early : Nat := 0                           -- retries that reached the upstream before its Retry-After instant
+  acc : List Nat := []                       -- ghost: events EnqueueEvent accepted
+  deriving Repr
+
+def RSt.deliver (s : RSt) (d : Nat) (evs : List Nat) : RSt := { s with delivered := s.delivered ++ [(d, evs)] }
+
+/-- the first attempt was refused with `Retry-After` = `a - now` -/
+def RSt.sleepOrDrop (s : RSt) (d : Nat) (evs : List Nat) (a : Int) : RSt :=
+  if 0 < a - s.now ∧ a - s.now < 60 then { s with sleeping := s.sleeping ++ [{ dest := d, evs := evs, wake := a }] }
+  else { s with dropped := s.dropped ++ [(d, evs)] }
+
+/-- a batch is dispatched: first attempt at `s.now` -/
+def RSt.firstAttempt (c : RCfg) (s : RSt) (d : Nat) (evs : List Nat) : RSt :=
+  if !c.lim.contains d then s.deliver d evs
+  else match AList.get s.acceptAt d with
+    | none => ({ s with acceptAt := AList.put s.acceptAt d (s.now + c.r) }).sleepOrDrop d evs (s.now + c.r)
+    | some a => if a ≤ s.now then s.deliver d evs else s.sleepOrDrop d evs a
+
+/-- the one retry, at `s.now` -/
+def RSt.retry (s : RSt) (b : RSleep) : RSt :=
+  match AList.get s.acceptAt b.dest with
+  | some a => if a ≤ s.now then s.deliver b.dest b.evs
+              else { s with dropped := s.dropped ++ [(b.dest, b.evs)], early := s.early + 1 }
+  | none => s.deliver b.dest b.evs
+
+/-- every sleeping batch whose sleep is over retries -/
+def RSt.wakeDue (s : RSt) : RSt :=
+  (s.sleeping.filter (fun b => decide (b.wake ≤ s.now))).foldl RSt.retry
+    { s with sleeping := s.sleeping.filter (fun b => !decide (b.wake ≤ s.now)) }
+
+def RSt.flush (c : RCfg) (s : RSt) : RSt :=
+  (s.pending.filter (fun p => !p.2.isEmpty)).foldl (fun s p => s.firstAttempt c p.1 p.2) { s with pending := [] }
+
+/-- the pending batch of `d` with `sid` appended -/
+def RSt.grown (s : RSt) (d sid : Nat) : List Nat := (AList.get s.pending d).getD [] ++ [sid]
+
+/-- the latest instant a sleeping batch is waiting for -/
+def RSt.lastWake (s : RSt) : Int := s.sleeping.foldl (fun (m : Int) (b : RSleep) => max m b.wake) s.now
+
+/-- `Stop`: `close(d.stop)`, dispatch what is pending, `dispatchPool.Wait()` -/
+def RSt.stop (c : RCfg) (s : RSt) : RSt :=
+  if s.stopped then s
+  else if c.stopWakes then
+    -- the closed `d.stop` ends every wait at once: sleeping batches and the flush batches retry now
+    (({ s with stopped := true }).flush c).sleeping.foldl RSt.retry
+      { ({ s with stopped := true }).flush c with sleeping := [] }
+  else
+    -- the clock runs on while Stop waits for its dispatch pool: every sleep comes to its end
+    ({ ({ s with stopped := true }).flush c with now := (({ s with stopped := true }).flush c).lastWake }).wakeDue
+
+inductive ROp
+  | ev (sid dest : Nat)     -- EnqueueEvent
+  | adv (n : Nat)           -- the clock advances n seconds
+  | stop                    -- DirectTransmission.Stop, the clock keeps running while it blocks
+  deriving DecidableEq, Repr
+
+def rstep (c : RCfg) (s : RSt) : ROp → RSt × EnqOut
+  | .ev sid d =>
+    if s.stopped then (if s.locked then (s, .blocked) else ({ s with locked := true }, .panic))
+    else if c.mb ≤ (s.grown d sid).length then
+      (({ s with acc := s.acc ++ [sid], pending := AList.put s.pending d [] }).firstAttempt c d (s.grown d sid), .ok)
+    else ({ s with acc := s.acc ++ [sid], pending := AList.put s.pending d (s.grown d sid) }, .ok)
+  | .adv n => (({ s with now := s.now + n }).wakeDue, .ok)
+  | .stop => (s.stop c, .ok)
+
+def rrun (c : RCfg) (ops : List ROp) : RSt := ops.foldl (fun s o => (rstep c s o).1) {}
+
 /-! ## `Agent.healthCheck`
 
 The loop as it is now (commit 4b2120c, `fixed = true`):
